@@ -60,7 +60,8 @@ def run_free(run, policy, max_steps=400, hook=None, start=True):
             hook(run, "after_poll")
         if not run.inflight:
             st = run.status()
-            if st == "paused" and policy.auto_resume and run.ctl["pause_req"] and resumed < 8:
+            if st == "paused" and policy.auto_resume and (run.ctl["pause_req"] or run.ctl.get("resumed_before_rest")) \
+                    and resumed < 8:
                 resumed += 1
                 run.request("resuming" if h64(policy.pseed, "res", resumed) % 2 else "running")
                 need_poll = True
